@@ -502,11 +502,18 @@ func (p *Plugin) appendIndexName(outBuf []byte, event *pipeline.Event) []byte {
 		if value == "@time" {
 			outBuf = append(outBuf, p.time...)
 		} else {
-			value := event.Root.Dig(value).AsString()
-			if value == "" {
-				value = "not_set"
+			node := event.Root.Dig(value)
+			if node.AsString() == "" {
+				outBuf = append(outBuf, "not_set"...)
+			} else {
+				// the value lands inside a JSON string: escape it
+				l := len(outBuf)
+				outBuf = node.AppendEscapedString(outBuf)
+				if node.IsString() {
+					// drop the quotes AppendEscapedString puts around a string
+					outBuf = append(outBuf[:l], outBuf[l+1:len(outBuf)-1]...)
+				}
 			}
-			outBuf = append(outBuf, value...)
 		}
 	}
 	outBuf = append(outBuf, "\"}}"...)
